@@ -40,7 +40,9 @@ Encodes(op, r, h) ==
     [] r.kind = "snap" ->
          /\ h.status = 200 /\ h.nxv = 1 /\ h.xv = r.vid /\ h.xvc /\ h.nxp = 0 /\ h.nxs = 0
          /\ h.ct = SNAP_CT /\ h.btok = r.tok /\ h.blen > 0
-    [] OTHER -> FALSE      \* the library twin failed: nothing can encode that
+    \* the library reports a storage failure (ServerError::Other): a server error, never one of the protocol's answers
+    [] r.kind = "error" -> h.status \in 500..599 /\ h.nxv = 0 /\ h.nxp = 0 /\ h.nxs = 0
+    [] OTHER -> FALSE      \* the library twin panicked: nothing can encode that
 
 (* the outcome classes the property distinguishes are sent differently *)
 EncodeSeparates ==
@@ -56,10 +58,14 @@ C14_Step(op, twinResp, twinSt, resp, st, h) ==
 (* C15: the request grammar                                                *)
 (***************************************************************************)
 Routes   == {"av", "gcv", "as", "gs", "gs_slash", "index", "unknown", "unknown2", "prefix"}
-Methods  == {"GET", "POST", "PUT", "DELETE", "PATCH"}
+Methods  == {"GET", "POST", "PUT", "DELETE", "PATCH", "HEAD", "OPTIONS"}
 CidForms == {"valid", "absent", "empty", "nonascii", "utf8", "short", "long", "garbage",
-             "braced", "urn", "simple", "upper", "spaces"}
-PidForms == {"valid", "upper", "braced", "simple", "urn", "short", "long", "nonhex", "empty", "none", "extra"}
+             "braced", "urn", "simple", "upper", "spaces",
+             \* long values (error paths that quote or truncate the offending value): 40 x 0xFF, 40 x "xe'" (2-byte
+             \* characters at odd offsets), 300 ASCII characters, a valid id followed by twelve 3-byte characters
+             "longnonascii", "longutf8", "longascii", "idjunk"}
+PidForms == {"valid", "upper", "braced", "simple", "urn", "short", "long", "nonhex", "empty", "none", "extra",
+             "pctbad", "verylong"}       \* percent-encoded bytes that are not UTF-8; 300 characters
 CtForms  == {"right", "absent", "wrong", "octet", "swapped", "upper", "params", "prefix"}
 SmallSizes == {0, 1, 20}
 BigSizes   == {Limit - 1, Limit, Limit + 1}
@@ -134,7 +140,9 @@ C16_Step(allow, c, cidForm, proto, wf, h, ntxn, pre, post) ==
         /\ ntxn = 0 /\ post = pre
         /\ proto => h.status \in 400..499       \* proto: the path names one of the four protocol endpoints
         /\ wf => h.status = 403
-  /\ (c # 0 /\ cidForm = "valid" /\ (~allow.on \/ c \in ids)) => h.status # 403
+  \* a listed client (any client when there is no list) is never refused as unknown, however its id is spelled
+  \* (a spelling the server does not take is a malformed request: 400, as without a list)
+  /\ (c # 0 /\ cidForm \in {"valid", "upper", "simple", "braced", "urn", "spaces"} /\ (~allow.on \/ c \in ids)) => h.status # 403
 
 (***************************************************************************)
 (* C20: every response forbids caching                                     *)
